@@ -253,6 +253,28 @@ func ruleJSONTAGS(c *Ctx, r *Report) {
 					if m := tagNameRe.FindStringSubmatch(s); m != nil {
 						searched[m[1]] = c.instrPos(in)
 					}
+					continue
+				}
+				// the names searched for in a loop over a literal list of them
+				if ld, ok := call.Call.Args[1].(*ssa.UnOp); ok {
+					if ia, ok := ld.X.(*ssa.IndexAddr); ok {
+						var arr *ssa.Alloc
+						switch x := ia.X.(type) {
+						case *ssa.Alloc:
+							arr = x
+						case *ssa.Slice:
+							arr, _ = x.X.(*ssa.Alloc)
+						}
+						if arr != nil {
+							for _, el := range localArrayElems(arr) {
+								if s, ok := constStringVal(el); ok {
+									if m := tagNameRe.FindStringSubmatch(s); m != nil {
+										searched[m[1]] = c.instrPos(in)
+									}
+								}
+							}
+						}
+					}
 				}
 			}
 		}
@@ -607,13 +629,16 @@ func ruleJSONNUMEXACT(c *Ctx, r *Report) {
 				// a closure / private helper that every caller hands the address of such a field
 				type slot struct {
 					fn *ssa.Function
-					fa *ssa.FieldAddr
+					fa ssa.Value // the address the value is read from
 					at *ssa.Call
 				}
 				var slots []slot
 				if ld, ok := arg.(*ssa.UnOp); ok {
 					switch x := ld.X.(type) {
 					case *ssa.FieldAddr:
+						slots = append(slots, slot{f, x, call})
+					case *ssa.UnOp:
+						// a pointer kept in a local table of the places to post-process (`*bound.value`)
 						slots = append(slots, slot{f, x, call})
 					case *ssa.Parameter:
 						idx := -1
@@ -660,8 +685,11 @@ func ruleJSONNUMEXACT(c *Ctx, r *Report) {
 								if !ok {
 									continue
 								}
-								fa2, ok := st.Addr.(*ssa.FieldAddr)
-								if !ok || fa2.X != fa.X || fa2.Field != fa.Field {
+								if fa2, ok := st.Addr.(*ssa.FieldAddr); ok {
+									if fa1, ok := fa.(*ssa.FieldAddr); !ok || fa2.X != fa1.X || fa2.Field != fa1.Field {
+										continue
+									}
+								} else if st.Addr != fa && c.key(st.Addr, nil) != c.key(fa, nil) {
 									continue
 								}
 								v := st.Val
